@@ -38,6 +38,7 @@ type Check struct {
 	Stubs       []string
 	TCQuick     [2]int // thread-trace composition (N threads, M max slots); 0 = none
 	TCThorough  [2]int
+	NV          []int // model-validation scenarios (VxHNV) run natively and in the interpreter
 }
 
 var checks = map[string]*Check{}
@@ -138,6 +139,7 @@ type checkRun struct {
 	violLines []string
 	knownLines []string
 	knownSeen  map[string]bool
+	nvDone     []string
 	nviol     int
 	traces    int
 	seed      int64
@@ -163,6 +165,7 @@ func cmdCheck(args []string) int {
 	if t := os.Getenv("VERIF_TIER"); t != "" && !flagSet(fs, "tier") {
 		*tier = t
 	}
+	finishRegistry()
 	ck := checks[id]
 	if ck == nil {
 		fmt.Fprintln(os.Stderr, "unknown check", id)
@@ -198,6 +201,9 @@ func cmdCheck(args []string) int {
 			continue
 		}
 		cr.runHarness(h, !*noNative)
+	}
+	if len(ck.NV) > 0 && *only == "" && !*noNative {
+		cr.modelValidation(ck.NV)
 	}
 	tcCfg := ck.TCQuick
 	if *tier == "thorough" && ck.TCThorough[0] > 0 {
@@ -690,6 +696,7 @@ func (cr *checkRun) writeEvidence(wall float64) {
 		"harnesses":          cr.reports,
 		"inconclusive":       uniq(cr.problems),
 		"known_findings":     cr.knownLines,
+		"model_validation":   cr.nvDone,
 		"exhaustive":         len(cr.problems) == 0,
 		"ssa_load_s":         cr.prog.LoadS,
 	}
